@@ -10,7 +10,15 @@ one() {
   git -C /repo worktree add --detach "$wt" HEAD >/dev/null 2>&1 || { echo "$id: cannot create worktree"; return; }
   (cd "$wt" && git apply "$dst/patch.diff") || { echo "$id: patch does not apply"; git -C /repo worktree remove --force "$wt"; return; }
   pk=$(cd "$wt" && git diff --name-only | xargs -n1 dirname | sort -u | sed 's#^#./#')
-  (cd "$wt" && unshare -n sh -c "ip link set lo up; exec \"\$@\"" -- go test -count=1 -vet=off -timeout 25m $pk 2>&1 | tail -5) > "$dst/existing_with.txt"
+  (cd "$wt" && unshare -n sh -c "ip link set lo up; exec \"\$@\"" -- go test -count=1 -vet=off -timeout 25m $pk 2>&1) > "/tmp/seedfull-$id.out"
+  failed=$(grep -E '^--- FAIL: ' "/tmp/seedfull-$id.out" | awk '{print $3}' | sort -u | tr '\n' '|' | sed 's/|$//')
+  { grep -E '^(--- FAIL|ok|FAIL|panic)' "/tmp/seedfull-$id.out" | tail -8; } > "$dst/existing_with.txt"
+  if [ -n "$failed" ]; then
+    # tests of this package that fail under load are re-run alone, three times (several are timing dependent on the unchanged tree too)
+    echo "re-running alone (x3): $failed" >> "$dst/existing_with.txt"
+    (cd "$wt" && unshare -n sh -c "ip link set lo up; exec \"\$@\"" -- go test -count=3 -vet=off -timeout 25m -run "^($failed)\$" $pk 2>&1 | grep -E '^(--- FAIL|ok|FAIL)' | tail -5) >> "$dst/existing_with.txt"
+  fi
+  rm -f "/tmp/seedfull-$id.out"
   git -C /repo worktree remove --force "$wt"
   echo "$id: $(tail -1 $dst/existing_with.txt)"
   python3 - "$id" <<'PY'
